@@ -415,15 +415,33 @@ func (c *Chain) Crash() (same bool, detail string) {
 		return true, ""
 	}
 	c.BeginBlock(blk.Begin.Header.Time)
+	same = true
+	note := func(f string, a ...interface{}) {
+		if same {
+			same, detail = false, fmt.Sprintf(f, a...)
+		}
+	}
+	hi := 0
 	for i, tx := range blk.Txs {
+		for hi < len(blk.Hooks) && blk.Hooks[hi].After <= i {
+			c.Hook(blk.Hooks[hi].Name)
+			hi++
+		}
 		res := c.DeliverTx(tx)
 		if i < len(before.Txs) {
-			if res.Code != before.Txs[i].Code || string(res.Data) != string(before.Txs[i].Data) || res.GasUsed != before.Txs[i].GasUsed {
-				return false, fmt.Sprintf("tx %d after crash: code %d/%d gas %d/%d", i, res.Code, before.Txs[i].Code, res.GasUsed, before.Txs[i].GasUsed)
+			if res.Code != before.Txs[i].Code || string(res.Data) != string(before.Txs[i].Data) {
+				note("result: tx %d after crash: code %d/%d", i, res.Code, before.Txs[i].Code)
+			} else if res.GasUsed != before.Txs[i].GasUsed {
+				cls := "gas"
+				if res.Code != 0 && res.GasWanted == 0 {
+					// a transaction rejected before the ante handler set up its own gas meter
+					cls = "pre_ante_failed_tx_gas"
+				}
+				note("%s: tx %d after crash: code %d gas %d/%d", cls, i, res.Code, res.GasUsed, before.Txs[i].GasUsed)
 			}
 		}
 	}
-	return true, ""
+	return same, detail
 }
 
 // ReadCtx returns a throw-away context over the current state (deliver state inside a block,
